@@ -224,7 +224,7 @@ def evaluate_form(spec, wd, real_numba=False):
         scale = float(np.max(np.abs(np.asarray(A_c)))) + 1e-30
         u = float(np.finfo(kernels.real_dtype(st_)).eps)
         diff = float(np.nanmax(np.abs(np.asarray(A_c).astype(np.complex128) - np.asarray(A_n).astype(np.complex128))))
-        if not diff <= 2e3 * u * scale:
+        if not diff <= 2e3 * u * (scale + 0.05):
             return viol("value", f"({itype},{sid}) entity {ent}: numba and C kernels differ by {diff:.3e} at scale {scale:.3e} ({st_})")
         if real_numba and "scipy.special.jn(" not in text and "scipy.special.yn(" not in text and not fr.complex:
             # the generated function as numba itself compiles it (cfunc, nopython), called through its C pointer
@@ -234,7 +234,7 @@ def evaluate_form(spec, wd, real_numba=False):
                 return viol("numba-compile", f"numba.cfunc(nopython=True) cannot compile kernel ({itype},{sid}) of a form the C backend accepts: "
                             f"{type(e).__name__}: {str(e)[:400]}")
             diff_r = float(np.nanmax(np.abs(np.asarray(A_c).astype(np.complex128) - np.asarray(A_r).astype(np.complex128))))
-            if not diff_r <= 2e3 * u * scale:
+            if not diff_r <= 2e3 * u * (scale + 0.05):
                 return viol("value-real-numba", f"({itype},{sid}) entity {ent}: numba-compiled kernel and C kernel differ by {diff_r:.3e} at scale {scale:.3e} ({st_})")
             classes.append("real-numba-kernels-compiled")
         checked += 1
@@ -305,7 +305,7 @@ def evaluate_expr(spec, wd):
         return viol("runtime-error", f"numba expression kernel fails at run time: {type(e).__name__}: {str(e)[:300]}")
     scale = float(np.max(np.abs(r.A))) + 1e-30
     diff = float(np.nanmax(np.abs(np.asarray(r.A) - np.asarray(A_n))))
-    if not diff <= 1e-12 * scale + 1e-300:
+    if not diff <= 1e-12 * (scale + 0.05):
         return viol("value", f"numba and C expression kernels differ by {diff:.3e} at scale {scale:.3e}")
     return Outcome("ok", case_id=h, nontrivial=True, classes=classes, sample={"spec": sclean})
 
